@@ -437,12 +437,23 @@ func rerun(lines []string, out io.Writer) {
 // mutCheck: `mut aztec <hex> <pct> <layers>` — the encoder gets a private buffer; afterwards the buffer is
 // overwritten and every accessor / pixel is read again (C15: no aliasing, input not modified).
 func mutCheck(f []string) string {
-	buf := unhex(f[1])
-	orig := append([]byte(nil), buf...)
+	// the payload is a window into a larger buffer with sentinel bytes before and behind it (spare capacity included)
+	orig := unhex(f[1])
+	whole := make([]byte, 16+len(orig)+4096)
+	for i := range whole {
+		whole[i] = 0xA5
+	}
+	copy(whole[16:], orig)
+	buf := whole[16 : 16+len(orig)]
 	bc, err := aztec.Encode(buf, atoi(f[2]), atoi(f[3]))
 	input := 1
 	if string(buf) != string(orig) {
 		input = 0
+	}
+	for i, x := range whole {
+		if (i < 16 || i >= 16+len(orig)) && x != 0xA5 {
+			input = 0
+		}
 	}
 	line1 := classify(bc, err)
 	if !strings.HasPrefix(line1, "ok") {
